@@ -71,6 +71,11 @@ st2 = make(struct { S struct { A []int64 } })
 	must(e.Define("nilslice", []interface{}(nil)))
 	must(e.Define("nilmap", map[interface{}]interface{}(nil)))
 	must(e.Define("ptrs", []*int64{nil, new(int64)}))
+	must(e.Define("ppn", new(*int64)))      // non-nil pointer to a nil pointer
+	must(e.Define("pni", new(interface{}))) // non-nil pointer to a nil interface
+	cch := make(chan interface{}, 1)
+	close(cch)
+	must(e.Define("cch", cch))
 	must(e.Define("p32", []*int32{}))
 	must(e.Define("tim", map[int64]int64{1: 2}))
 	must(e.Define("tm2", map[string]int64{"a": 1, "b": 2, "c": 3}))
@@ -271,7 +276,7 @@ func firstWords(s string, n int) string {
 var sweepOperands = []string{
 	"0", "1", "-1", "7", "64", "-64", "0.5", "-0.25", "1e-9", "2.5", "1e300", "0.0", "9223372036854775807", "-9223372036854775808",
 	"\"\"", "\"0.5\"", "\"abc\"", "\"7\"", "u", "nil", "true", "false", "[]", "[1]", "[1, 2, 3]", "c", "{}", "x", "v", "nilptr", "nilslice", "nilmap",
-	"f", "ch", "m", "_t1", "ts", "tm", "pt", "st", "make([]int64, 0)", "c[5:]", "fz()", "swap(1, 2)",
+	"f", "ch", "m", "_t1", "ts", "tm", "pt", "st", "make([]int64, 0)", "c[5:]", "fz()", "swap(1, 2)", "ppn", "pni", "cch", "ptrs[0]", "ptrs[1]",
 }
 
 // noPanicSweep runs, in this process under recover, every binary operator / compound assignment / index / slice / make /
@@ -289,34 +294,57 @@ func noPanicSweep(o *Out) {
 				srcs = append(srcs, "zz = "+l+"\nzz "+op+" "+r)
 			}
 			srcs = append(srcs, "("+l+")["+r+"]", "("+l+")["+r+":]", "("+l+")[:"+r+"]", "zz = "+l+"\nzz["+r+"] = "+r, "("+l+")["+r+":"+r+"]", "true ? "+l+" : "+r,
-				"switch "+l+" { case "+r+": 1 }", "for q in "+l+" { "+r+" }", "make([]int64, "+l+", "+r+")", "g("+l+", "+r+")", "sum("+l+", "+r+")")
+				"switch "+l+" { case "+r+": 1 }", "for q in "+l+" { "+r+" }", "zz = "+l+"\nzp = &zz\nzp == "+r, "zz = "+l+"\nzp = &zz\n"+r+" in [zp]", "zz = "+l+"\nzp = &zz\nswitch "+r+" { case zp: 1 }", "make([]int64, "+l+", "+r+")", "g("+l+", "+r+")", "sum("+l+", "+r+")")
 		}
 		srcs = append(srcs, "p1, p2 = "+l, "var p1, p2 = "+l, "p1, p2, p3 = "+l, "p1, p2 = "+l+", "+l, "-("+l+")", "!("+l+")", "^("+l+")", "zz = "+l+"\nzz++", "zz = "+l+"\nzz--",
 			"len("+l+")", "make([]int64, "+l+")", "make(chan int64, "+l+")", "toString("+l+")", "toInt("+l+")", "toFloat("+l+")", "toBool("+l+")", "keys("+l+")", "range("+l+")",
-			"for q in "+l+" { break }", "delete("+l+", 1)", "throw "+l, "return "+l, "sum("+l+"...)", "g(1, "+l+"...)", "func(p...) { return p }("+l+"...)", "*("+l+")", "zz = "+l+"\n&zz")
+			"for q in "+l+" { break }", "delete("+l+", 1)", "cch <- "+l, "cch <- <- cch", "<- "+l, "zz, zo = <- "+l, "close("+l+")", "throw "+l, "return "+l, "sum("+l+"...)", "g(1, "+l+"...)", "func(p...) { return p }("+l+"...)", "*("+l+")", "zz = "+l+"\n&zz")
 	}
 	e := richEnv()
 	hasBig := func(src string) bool {
 		return strings.Contains(src, "9223372036854775807") || strings.Contains(src, "9223372036854775808") || strings.Contains(src, "1e300")
 	}
 	for _, src := range srcs {
-		if strings.Contains(src, "ch") && (strings.HasPrefix(src, "for q in ch") || strings.Contains(src, "<-")) {
-			continue // receiving from the empty channel blocks
+		if (strings.HasPrefix(src, "for q in ch") || strings.HasSuffix(src, "<- ch")) && !strings.HasSuffix(src, "<- cch") {
+			continue // receiving from the empty open channel blocks
 		}
 		if hasBig(src) && (strings.Contains(src, "range(") || strings.Contains(src, "make(") || strings.Contains(src, "*")) {
 			continue // allocations of that size are resource exhaustion, outside the guarantee (the child-process forms cover the guards)
 		}
 		var p interface{}
+		var rerr error
 		func() {
 			defer func() { p = recover() }()
 			ctx, cancel := context.WithTimeout(context.Background(), 2*time.Second)
 			defer cancel()
-			_, _ = vm.ExecuteContext(ctx, e.DeepCopy(), nil, src)
+			_, rerr = vm.ExecuteContext(ctx, e.DeepCopy(), nil, src)
 		}()
 		o.Sum.Evaluations++
 		o.Sum.Hist["src:sweep"]++
 		if p != nil {
 			o.Fail(Failure{Oracle: "host-survives", Key: "host-panic:" + firstWords(fmt.Sprint(p), 6), Input: src, Detail: fmt.Sprint(p)})
+			continue
+		}
+		if rerr != nil && strings.Contains(rerr.Error(), "interrupt") {
+			continue // ran into the time limit: not run again without one
+		}
+		// the same text under a context that cannot be cancelled (vm.Execute): paths that test ctx.Done() differ
+		bg := make(chan interface{}, 1)
+		go func() {
+			var q interface{}
+			defer func() { q = recover(); bg <- q }()
+			_, _ = vm.Execute(e.DeepCopy(), nil, src)
+		}()
+		select {
+		case p = <-bg:
+		case <-time.After(5 * time.Second):
+			o.Sum.Hist["sweep-background-context:no-return-in-5s"]++
+			continue
+		}
+		o.Sum.Evaluations++
+		o.Sum.Hist["src:sweep-background-context"]++
+		if p != nil {
+			o.Fail(Failure{Oracle: "host-survives", Key: "host-panic:" + firstWords(fmt.Sprint(p), 6), Input: src, Detail: "under vm.Execute (context.Background): " + fmt.Sprint(p)})
 		}
 	}
 }
